@@ -402,6 +402,23 @@ func checkGlobals(o *core.Obs) {
 	}
 }
 
+// Pool monitor (build tag verif in /repo): every object returned to the sweep-line pools is
+// overwritten with poison while any monitor runs, so a use after release or state carried over to
+// the next user changes results (seen by the oracles) and is counted at the hooks in the result
+// tracing; a case during which the count rose is a violation of C20's pool clause, reported under
+// the property being run.
+var poolStale int64
+
+func init() {
+	canvas.VerifSetPoison(true)
+	core.AfterCase = func(o *core.Obs) {
+		if n := canvas.VerifStaleReads(); n != poolStale {
+			o.Fail("pool-stale-read", "%d reads of sweep points that had already been released to the shared pool during this case", n-poolStale)
+			poolStale = n
+		}
+	}
+}
+
 func f4(x float64) string { return fmt.Sprintf("%.4g", x) }
 
 // caseRng derives the PRNG of the oracle's own random choices (sample points) from the case itself,
